@@ -83,7 +83,8 @@ var images = []image{
 				sw.ObjSpec{Cnr: "A", Label: "a4", Exp: 2},
 				sw.ObjSpec{Cnr: "A", Label: "a5"},
 				sw.ObjSpec{Cnr: "A", Label: "L", Type: object.TypeLock, Target: "a3", Exp: 100},
-				sw.ObjSpec{Cnr: "A", Label: "T", Type: object.TypeTombstone, Target: "a2", Exp: 100})...); err != nil {
+				sw.ObjSpec{Cnr: "A", Label: "T", Type: object.TypeTombstone, Target: "a2", Exp: 100},
+				sw.ObjSpec{Cnr: "B", Label: "T9", Type: object.TypeTombstone, Target: "never-stored", Exp: 2})...); err != nil {
 				return err
 			}
 			if err := w.Sh.MarkGarbage(sw.CID("B"), []oid.ID{sw.OID("b1")}, meta.GarbageMarkDefault); err != nil {
@@ -113,6 +114,35 @@ var images = []image{
 			{"B", "b1", always("gone")}, {"C", "c1", always("gone")}}},
 }
 
+func init() {
+	images = append(images, image{Name: "container-collected", // a removed container whose objects are gone already; only its metadata is left for the next GC pass
+		Build: func(w *sw.World, f func()) error {
+			if err := putAll(w, f, append(append([]sw.ObjSpec(nil), plain...), sw.ObjSpec{Cnr: "C", Label: "c1"}, sw.ObjSpec{Cnr: "C", Label: "c2"})...); err != nil {
+				return err
+			}
+			if err := w.Sh.InhumeContainer(sw.CID("C")); err != nil {
+				return err
+			}
+			w.GCPass() // removes c1, c2; the emptied container itself is dropped by the NEXT pass
+			for _, l := range []string{"c1", "c2"} {
+				if _, err := w.Sh.Get(sw.Addr("C", l), true); err == nil {
+					return fmt.Errorf("object %s of the removed container survived the GC pass", l)
+				}
+			}
+			cs, err := w.Sh.ListContainers()
+			if err != nil {
+				return err
+			}
+			for _, c := range cs {
+				if c == sw.CID("C") {
+					return nil
+				}
+			}
+			return errors.New("the removed container is already forgotten after one GC pass: the image does not hold the pending clean-up")
+		},
+		Reads: []read{{"A", "a1", always("ok")}, {"A", "a2", always("ok")}, {"A", "a3", always("ok")}, {"B", "b1", always("ok")}}})
+}
+
 // ---------- configs ----------
 
 // How the read-only mode is entered: always through Shard.SetMode from read-write (the write-cache
@@ -126,10 +156,11 @@ const (
 	eBlobInit
 	eMetaOpen
 	eWCDir
+	eConfig // the shard STARTS in the mode: populated in read-write, closed, reopened with shard.WithMode(m)
 	nEntries
 )
 
-var entryName = []string{"", "blobstor-write-fails", "blobstor-init-fails", "metabase-open-fails", "write-cache-dir-unopenable"}
+var entryName = []string{"", "blobstor-write-fails", "blobstor-init-fails", "metabase-open-fails", "write-cache-dir-unopenable", "configured-mode"}
 
 var errInj = errors.New("injected component failure")
 
@@ -142,6 +173,31 @@ type config struct {
 	dir     string            // closed pre-populated image (read-write history only)
 	logical string            // digest of the logical persistent state right after the mode switch
 	objs    map[string][]byte // physically stored objects (address -> bytes)
+}
+
+func modeName(m mode.Mode) string {
+	if m == mode.DegradedReadOnly {
+		return "DRO"
+	}
+	if m == mode.ReadOnly {
+		return "RO"
+	}
+	return m.String()
+}
+
+// entryClass is the fingerprint's view of how the mode was reached.
+func (c *config) entryClass() string {
+	wc := "no-write-cache"
+	if c.WC {
+		wc = "write-cache"
+	}
+	switch c.Entry {
+	case eClean:
+		return "entered-by-SetMode:" + wc
+	case eConfig:
+		return "configured-mode:" + wc
+	}
+	return "entered-by-failing-SetMode(" + entryName[c.Entry] + "):" + wc
 }
 
 func (c *config) name() string {
@@ -176,6 +232,9 @@ func (c *config) open(dir string, s *sys) (*sw.World, error) {
 	ep := &sw.Epoch{}
 	ep.Set(1)
 	cfg := sw.Config{Dir: dir, WriteCache: c.WC, Epoch: ep, Payments: payments()}
+	if s != nil && c.Entry == eConfig {
+		cfg.Extra = []shard.Option{shard.WithMode(c.Mode)}
+	}
 	if s != nil {
 		cfg.WrapStorage = func(st common.Storage) common.Storage { s.fs = sw.NewFaultyStorage(st); return s.fs }
 		cfg.MetaOpenFile = func(p string, flag int, perm os.FileMode) (*os.File, error) {
@@ -282,6 +341,9 @@ type sys struct {
 	fs       *sw.FaultyStorage
 	metaFail atomic.Bool
 	mode     mode.Mode // the mode the shard reports after the entry switch
+	// first operation after which the on-disk state differed from the baseline, and how
+	changedBy  string
+	changeDiff []string
 	dir      string
 	base     sw.State // byte-level persistent state of THIS instance right after the mode switch
 	wcb      string   // write-cache accounting at that moment
@@ -305,6 +367,19 @@ func (c *config) newSys() *sys {
 		return fail(err)
 	}
 	s.w = w
+	if c.Entry == eConfig {
+		// read-only by configuration (`mode:` in the shard config -> shard.WithMode): Shard.Open opens
+		// every component read-write, only the shard-level mode restricts anything
+		s.mode = w.Sh.GetMode()
+		if s.mode != c.Mode {
+			return fail(fmt.Errorf("shard configured with mode %s reports %s", c.Mode, s.mode))
+		}
+		if s.base, err = sw.SnapStateRaw(s.dir); err != nil {
+			return fail(err)
+		}
+		s.wcb = w.WCCounters()
+		return s
+	}
 	// enter the mode through SetMode, from read-write, with the entry fault armed for that one call
 	wcDir, away := sw.WCDir(s.dir), sw.WCDir(s.dir)+".away"
 	switch c.Entry {
@@ -382,6 +457,13 @@ func (s *sys) Apply(i int) (string, bool) {
 		os.RemoveAll(scratch)
 		os.Exit(2)
 	}
+	if s.changedBy == "" {
+		if st, err := sw.SnapStateRaw(s.dir); err == nil {
+			if d := s.base.DiffBytes(st); len(d) > 0 {
+				s.changedBy, s.changeDiff = strings.SplitN(o.Name, "(", 2)[0], d
+			}
+		}
+	}
 	if s.fp != "" {
 		return cls, true
 	}
@@ -437,7 +519,15 @@ func (s *sys) Check() (string, string) {
 		return "harness-snapshot", err.Error()
 	}
 	if d := s.base.DiffBytes(st); len(d) > 0 {
-		return "persistent-state-changed:" + strings.SplitN(d[0], ":", 2)[0], fmt.Sprintf("%s: on-disk state differs from the state at the mode switch: %v", c.name(), d)
+		by, first := s.changedBy, d
+		if by == "" {
+			by = "nothing"
+		} else {
+			first = s.changeDiff
+		}
+		// class = what changed : which operation did it : how the shard got into the mode
+		return fmt.Sprintf("persistent-state-changed:%s:by=%s:mode=%s:%s", strings.SplitN(first[0], ":", 2)[0], by, modeName(s.mode), c.entryClass()),
+			fmt.Sprintf("%s: on-disk state differs from the state at which the shard started reporting %s (first changed by %s: %v; now: %v)", c.name(), modeName(s.mode), by, first, d)
 	}
 	if wcs := s.w.WCCounters(); wcs != s.wcb {
 		return "write-cache-accounting-changed", fmt.Sprintf("%s: %q -> %q", c.name(), s.wcb, wcs)
